@@ -330,6 +330,8 @@ AS = "src/engine/search/aspiration.rs"
 TT = "src/engine/transposition_table.rs"
 SM = "src/engine/search/mod.rs"
 MUTANTS = [
+    {"name": "a missing clock becomes Duration::MAX (seed C04-12a)", "expect": "C04-CONE",
+     "edits": __import__("shared_mutants").edits_from_patch("seeded/C04-12a/patch.diff")},
     {"name": "draw by material returned at the root too (seed C04-5a)", "expect": "C04-ROOT",
      "edits": [(NG, "    if !is_root\n        && (game.is_repeated_position()\n            || game.is_stalemate_by_fifty_move_rule()\n            || game.is_stalemate_by_insufficient_material())\n    {\n        return Ok(Eval::DRAW);\n    }",
                 "    if game.is_stalemate_by_insufficient_material()\n        || (!is_root && (game.is_repeated_position() || game.is_stalemate_by_fifty_move_rule()))\n    {\n        return Ok(Eval::DRAW);\n    }")]},
